@@ -510,3 +510,299 @@ func evMain(out *vk.Out, rnd *vk.Rand, maxLen int) error {
 	}
 	return nil
 }
+
+// ---------------------------------------------------------------- forced window (mode win)
+//
+// Socket A is parked inside middleware g of its chain (a gate in the middleware is the window).
+// While it is parked: a namespace-wide broadcast (tick 1), a second client B goes through its whole
+// admission, another broadcast (tick 2), views of A and B from outside.  Then A is released, and a
+// last broadcast (tick 3) follows.  Which ticks reach which raw peer, and the views, are compared
+// with the model run under the same schedule.
+
+type winCase struct {
+	ID    int    `json:"id"`
+	Suite string `json:"suite"`
+	Nsp   string `json:"nsp"`
+	K     int    `json:"k"`
+	G     int    `json:"g"`  // A is parked at the entry of middleware g
+	VA    []int  `json:"va"` // verdict codes of the chain for A (accept before g)
+	VB    []int  `json:"vb"`
+	JA    []int  `json:"ja"`
+	JB    []int  `json:"jb"`
+
+	RespA  string  `json:"resp_a"`
+	RespB  string  `json:"resp_b"`
+	RecvA  []int   `json:"recv_a"` // ticks received by A's connection
+	RecvB  []int   `json:"recv_b"`
+	MidA   viewObs `json:"mid_a"` // after B finished, A still parked
+	MidB   viewObs `json:"mid_b"`
+	EndA   viewObs `json:"end_a"`
+	EndB   viewObs `json:"end_b"`
+	CallsA []int   `json:"calls_a"`
+	CallsB []int   `json:"calls_b"`
+	Parked bool    `json:"parked"` // the gate was reached
+	Note   string  `json:"note,omitempty"`
+}
+
+type winSock struct {
+	mu    sync.Mutex
+	v, j  []int
+	calls []int
+	sid   string
+	sock  sio.ServerSocket
+	gate  int // -1: none
+	at    chan struct{}
+	open  chan struct{}
+}
+
+func collectTicks(p *rawPeer, nsp string, until int, d time.Duration) []int {
+	got := []int{}
+	for {
+		pk, st := p.wait(nsp, d, 2)
+		if st != "ok" {
+			return got
+		}
+		var arr []json.RawMessage
+		if json.Unmarshal([]byte(pk.body), &arr) != nil || len(arr) != 2 {
+			continue
+		}
+		var name string
+		var n int
+		json.Unmarshal(arr[0], &name)
+		json.Unmarshal(arr[1], &n)
+		if name != "tick" {
+			continue
+		}
+		got = append(got, n)
+		if n == until {
+			return got
+		}
+	}
+}
+
+func winMain(out *vk.Out, rnd *vk.Rand, maxLen int) error {
+	id := 0
+	for _, name := range []string{"/", "/chat"} {
+		for k := 1; k <= maxLen; k++ {
+			cfg := &sio.ServerConfig{}
+			cfg.EIO.WebSocketAcceptOptions = &websocket.AcceptOptions{CompressionMode: websocket.CompressionDisabled}
+			srv := sio.NewServer(cfg)
+			if err := srv.Run(); err != nil {
+				return err
+			}
+			nsp := srv.Of(name)
+			var mu sync.Mutex
+			socks := map[int]*winSock{}
+			for i := 0; i < k; i++ {
+				i := i
+				nsp.Use(func(socket sio.ServerSocket, hs *sio.Handshake) any {
+					var a struct {
+						C *int `json:"c"`
+					}
+					if json.Unmarshal(hs.Auth, &a) != nil || a.C == nil {
+						return fmt.Errorf("no case")
+					}
+					mu.Lock()
+					w := socks[*a.C]
+					mu.Unlock()
+					if w == nil {
+						return fmt.Errorf("unknown case")
+					}
+					w.mu.Lock()
+					w.calls = append(w.calls, i)
+					w.sid = string(socket.ID())
+					w.sock = socket
+					gate := w.gate == i
+					w.mu.Unlock()
+					if gate {
+						close(w.at)
+						<-w.open
+					}
+					switch w.j[i] {
+					case 1:
+						socket.Join(sio.Room("r" + strconv.Itoa(i)))
+					case 2:
+						socket.Join()
+					case 3:
+						socket.Join(sio.Room("r"+strconv.Itoa(i)), sio.Room("shared"))
+					}
+					switch w.v[i] {
+					case 1:
+						return fmt.Errorf("E:%d:%d:1", *a.C, i)
+					case 2:
+						return fmt.Sprintf("S:%d:%d:2", *a.C, i)
+					case 3:
+						return &rejData{Case: *a.C, Mw: i, Code: 3, Why: "structured"}
+					}
+					return nil
+				})
+			}
+			hdone := map[string]chan struct{}{}
+			nsp.OnConnection(func(socket sio.ServerSocket) {
+				mu.Lock()
+				ch := hdone[string(socket.ID())]
+				if ch == nil {
+					ch = make(chan struct{})
+					hdone[string(socket.ID())] = ch
+				}
+				mu.Unlock()
+				close(ch)
+			})
+			waitHandler := func(sid string) {
+				mu.Lock()
+				ch := hdone[sid]
+				if ch == nil {
+					ch = make(chan struct{})
+					hdone[sid] = ch
+				}
+				mu.Unlock()
+				select {
+				case <-ch:
+				case <-time.After(mwWait):
+				}
+			}
+			ts := httptest.NewServer(srv)
+			var peers []*rawPeer
+			for g := 0; g < k; g++ {
+				for _, va := range enumVectors(k) {
+					if !isAccept(va[:g]) {
+						continue
+					}
+					for _, vb := range [][]int{make([]int, k), append([]int{1 + rnd.Intn(3)}, make([]int, k-1)...)} {
+						c := &winCase{ID: id, Suite: "win", Nsp: name, K: k, G: g, VA: va, VB: vb,
+							JA: make([]int, k), JB: make([]int, k), RecvA: []int{}, RecvB: []int{}, CallsA: []int{}, CallsB: []int{}}
+						for i := 0; i < k; i++ {
+							c.JA[i], c.JB[i] = rnd.Intn(4), rnd.Intn(4)
+						}
+						wa := &winSock{v: va, j: c.JA, gate: g, at: make(chan struct{}), open: make(chan struct{})}
+						wb := &winSock{v: vb, j: c.JB, gate: -1}
+						ida, idb := 2*id, 2*id+1
+						id++
+						mu.Lock()
+						socks[ida], socks[idb] = wa, wb
+						mu.Unlock()
+						pa, err := dialRaw(ts.URL)
+						if err != nil {
+							c.Note = "dial: " + err.Error()
+							out.Put(c)
+							continue
+						}
+						pb, err := dialRaw(ts.URL)
+						if err != nil {
+							c.Note = "dial: " + err.Error()
+							out.Put(c)
+							continue
+						}
+						peers = append(peers, pa, pb)
+						pa.sendText(connectText(name, ida))
+						select {
+						case <-wa.at:
+							c.Parked = true
+						case <-time.After(mwWait):
+						}
+						nsp.Emit("tick", 1)
+						pb.sendText(connectText(name, idb))
+						pkb, st := pb.wait(name, mwWait, 0, 4)
+						bAdmitted := false
+						if st == "ok" && pkb.typ == 0 {
+							c.RespB = "connect"
+							bAdmitted = true
+							var info struct {
+								SID string `json:"sid"`
+							}
+							json.Unmarshal([]byte(pkb.body), &info)
+							wb.mu.Lock()
+							wb.sid = info.SID
+							wb.mu.Unlock()
+							waitHandler(info.SID)
+						} else if st == "ok" {
+							c.RespB = "connect_error"
+						} else {
+							c.RespB = st
+						}
+						nsp.Emit("tick", 2)
+						wa.mu.Lock()
+						sidA, sockA := wa.sid, wa.sock
+						wa.mu.Unlock()
+						wb.mu.Lock()
+						sidB, sockB := wb.sid, wb.sock
+						wb.mu.Unlock()
+						if sidA != "" {
+							c.MidA = observe(nsp, sockA, sidA, -1, k)
+						}
+						if sidB != "" {
+							c.MidB = observe(nsp, sockB, sidB, -1, k)
+						}
+						close(wa.open)
+						pka, st := pa.wait(name, mwWait, 0, 4)
+						aAdmitted := false
+						if st == "ok" && pka.typ == 0 {
+							c.RespA = "connect"
+							aAdmitted = true
+							waitHandler(sidA)
+						} else if st == "ok" {
+							c.RespA = "connect_error"
+						} else {
+							c.RespA = st
+						}
+						nsp.Emit("tick", 3)
+						// an admitted peer receives tick 3 after every earlier tick that was sent to it
+						if aAdmitted {
+							c.RecvA = collectTicks(pa, name, 3, mwWait)
+						}
+						if bAdmitted {
+							c.RecvB = collectTicks(pb, name, 3, mwWait)
+						}
+						if sidA != "" {
+							c.EndA = observe(nsp, sockA, sidA, -1, k)
+						}
+						if sidB != "" {
+							c.EndB = observe(nsp, sockB, sidB, -1, k)
+						}
+						wa.mu.Lock()
+						c.CallsA = append(c.CallsA, wa.calls...)
+						wa.mu.Unlock()
+						wb.mu.Lock()
+						c.CallsB = append(c.CallsB, wb.calls...)
+						wb.mu.Unlock()
+						// a peer that was never admitted must not have received any EVENT at all
+						if !aAdmitted {
+							pa.mu.Lock()
+							for i := 0; i < pa.events; i++ {
+								c.RecvA = append(c.RecvA, 99)
+							}
+							pa.mu.Unlock()
+						}
+						if !bAdmitted {
+							pb.mu.Lock()
+							for i := 0; i < pb.events; i++ {
+								c.RecvB = append(c.RecvB, 99)
+							}
+							pb.mu.Unlock()
+						}
+						// leave the namespace so that later cases' ticks do not pile up
+						pa.sock.Close()
+						pb.sock.Close()
+						fixView(&c.MidA)
+						fixView(&c.MidB)
+						fixView(&c.EndA)
+						fixView(&c.EndB)
+						out.Put(c)
+					}
+				}
+			}
+			srv.Close()
+			ts.Close()
+		}
+	}
+	return nil
+}
+
+func fixView(v *viewObs) {
+	if v.Rooms == nil {
+		v.Rooms = []string{}
+	}
+	if v.ReachVia == nil {
+		v.ReachVia = []string{}
+	}
+}
